@@ -47,7 +47,8 @@ def gen_parts(rng, quick):
                     if r < 0.4:
                         p[k] = rng.choice(alpha)
                     elif r < 0.7:
-                        p.insert(k, rng.choice(alpha))
+                        for _ in range(rng.choice([1, 1, 2, 3])):      # runs of adjacent inserted characters (a smudge read as "''" or "...")
+                            p.insert(k, rng.choice(alpha))
                     elif len(p) > 1:
                         del p[k]
                 p = ''.join(p)
@@ -83,6 +84,29 @@ def make_logits(parts, extra):
     return [np.arange(len(p) + e, dtype=np.int64).reshape(-1, 1) + 1000 * k for k, (p, e) in enumerate(zip(parts, extra))]
 
 
+def ref_lev(a, b):
+    """textbook unit-cost Levenshtein distance (independent of pero_ocr.sequence_alignment)"""
+    prev = list(range(len(b) + 1))
+    for i, x in enumerate(a, 1):
+        cur = [i]
+        for j, y in enumerate(b, 1):
+            cur.append(min(prev[j] + 1, cur[j - 1] + 1, prev[j - 1] + (x != y)))
+        prev = cur
+    return prev[-1]
+
+
+def ref_overlap(a, b):
+    """the documented overlap detector: the shortest-first scan over i = 1..min(len), keeping the first i with the strictly
+    smallest character error rate dist(a[-i:], b[:i]) / i below 1 (exact fractions)"""
+    from fractions import Fraction
+    best, best_i = Fraction(1), 0
+    for i in range(1, min(len(a), len(b)) + 1):
+        cer = Fraction(ref_lev(a[-i:], b[:i]), i)
+        if cer < best:
+            best, best_i = cer, i
+    return best_i
+
+
 def oracle(ctx, loe, kind, parts, extra, res_t, res_l):
     """The property's clauses, evaluated on the real output, using the real overlap detector."""
     inp = dict(parts=parts, extra_rows=extra)
@@ -93,6 +117,10 @@ def oracle(ctx, loe, kind, parts, extra, res_t, res_l):
         o = int(loe.find_best_overlap(r, p))
         if not (0 <= o <= min(len(r), len(p))):
             ctx.violation('overlap-range', 'find_best_overlap outside [0, min(len)]', dict(a=r, b=p), o)
+            return
+        ro = ref_overlap(r, p)
+        if o != ro:
+            ctx.violation('overlap-detector', 'detected overlap is not the suffix/prefix length with the smallest character error rate', dict(a=r, b=p), o, ro)
             return
         overlaps.append(o)
         r = r[:len(r) - (o + 1) // 2] + p[o // 2:]
@@ -268,5 +296,9 @@ def replay(data):
             parts, extra = inp['parts'], inp['extra_rows']
             rt, rl = loe.merge_transcriptions_and_logits(list(parts), make_logits(parts, extra))
             print('replay', v['key'], 'parts=%r -> merged=%r rows=%d' % (parts, rt, rl.shape[0]), '|', v['what'])
+            rc = 1
+        elif 'a' in inp and 'b' in inp:
+            print('replay', v['key'], 'find_best_overlap(%r, %r) = %r; smallest-error-rate overlap = %r' % (
+                inp['a'], inp['b'], int(loe.find_best_overlap(inp['a'], inp['b'])), ref_overlap(inp['a'], inp['b'])))
             rc = 1
     return rc
